@@ -16,6 +16,7 @@ import (
 	"regexp"
 	"runtime/debug"
 	"sort"
+	"strconv"
 	"strings"
 	"time"
 
@@ -256,8 +257,7 @@ func (r *runner) do(c Case) outcome {
 	if o.Dur > r.slow[c.EP] {
 		r.slow[c.EP] = o.Dur
 	}
-	key := c.EP + "|" + argsKey(c.Args)
-	r.res.Count(key, nontrivial(c))
+	r.res.Count(hashKey(c.EP+"|"+argsKey(c.Args)), nontrivial(c)) // 64-bit hash: the distinct set stays small
 	if o.Class == clsPanic || o.Class == clsTimeout {
 		what := fmt.Sprintf("%s: %s on %s (%s) %s", c.EP, o.Class, eps[c.EP].What, o.Detail, o.Stack)
 		r.res.Violate(findingID(c, o), what, c)
@@ -325,6 +325,9 @@ func main() {
 	}
 	if fl.Search {
 		r.budget *= 6
+		if r.budget > 16 { // thorough x search: bounded memory and time
+			r.budget = 16
+		}
 	}
 	registerAll()
 
@@ -442,4 +445,13 @@ func inventoryStats(res *lib.Result) {
 		total++
 	}
 	res.Distribution["inventory:sites"] = total
+}
+
+func hashKey(s string) string {
+	h := uint64(14695981039346656037)
+	for i := 0; i < len(s); i++ {
+		h ^= uint64(s[i])
+		h *= 1099511628211
+	}
+	return strconv.FormatUint(h, 36)
 }
